@@ -20,7 +20,8 @@ Chars == {<<0,0,0,0>>, <<0,0,0,65>>, <<0,0,0,127>>, <<0,0,0,128>>, <<0,0,7,255>>
 Strs == {<<>>, <<97>>, <<195,169>>, <<226,130,172>>, <<240,159,146,150>>, <<97,195,169,226,130,172,240,159,146,150>>,
          Rep(97, 254), Rep(97, 255), Rep(97, 256), Rep(97, 253) \o <<195,169>>, Rep(97, 254) \o <<195,169>>}
          \cup (IF Deep THEN {Rep(98, 300), [i \in 1..256 |-> IF i % 2 = 1 THEN 195 ELSE 169]} ELSE {})
-Syms == {<<>>, <<97>>, <<97,58,98>>, Rep(120, 255), Rep(120, 256)}
+\* (a symbol is ASCII by the letter of the specification; the API carries any string, and a byte above 127 must come back as it went)
+Syms == {<<>>, <<97>>, <<97,58,98>>, Rep(120, 255), Rep(120, 256), <<99,97,102,195,169>>}
 Bins == {<<>>, <<0>>, <<0,255>>, Rep(0, 255), Rep(7, 256)} \cup (IF Deep THEN {[i \in 1..300 |-> i % 256]} ELSE {})
 
 Scalars == {Null, B(TRUE), B(FALSE)}
@@ -46,7 +47,10 @@ Lists1 == { L(s) : s \in Seqs(Small, 2) } \cup { L(Rep(UI(1), 255)), L(Rep(Null,
 MapKeys == {Sym(<<97>>), Str(<<107>>), TS(5), Null, UI(1), UL(300), Bin(<<1>>), [t |-> "uuid", x |-> Rep(7, 16)], [t |-> "char", x |-> <<0,0,0,65>>]}
 Maps1 == { M(<<k, v>>) : k \in MapKeys, v \in Small } \cup { M(<<>>), M(<<Sym(<<97>>), UI(1), Sym(<<98>>), Str(<<120>>), TS(5), [t |-> "long", x |-> Z(7) \o <<7>>]>>) }
            \cup { M(<<TS(5), UI(1), Str(<<107>>), [t |-> "long", x |-> Z(7) \o <<7>>]>>) }
-           \cup { M(<<Sym(<<107>>), Bin(Rep(9, n))>>) : n \in 247..252 } \cup { M(<<Str(Rep(107, n)), Null>>) : n \in 249..253 }
+           \cup { M(<<Sym(<<107>>), Bin(Rep(9, n))>>) : n \in 247..252 }
+           \* a key on either side of the 8-bit / 32-bit width boundary followed by a value of the sibling type (symbol then string, string then symbol)
+           \cup { M(<<Sym(Rep(120, n)), Str(<<118>>)>>) : n \in 254..256 } \cup { M(<<Str(Rep(120, n)), Sym(<<118>>)>>) : n \in 254..256 }
+           \cup { M(<<Sym(Rep(120, 256)), Str(<<>>), Sym(<<97>>), Str(<<98>>)>>) } \cup { M(<<Str(Rep(107, n)), Null>>) : n \in 249..253 }
 
 DescCtor == [code |-> 0, d |-> UL(5), inner |-> [code |-> 113]]
 ArrCtors == { [code |-> 64], [code |-> 86], [code |-> 65], [code |-> 112], [code |-> 82], [code |-> 67], [code |-> 177], [code |-> 161], [code |-> 179], [code |-> 163],
@@ -83,8 +87,10 @@ Arrays == (UNION { { [t |-> "array", c |-> cc, x |-> s] : s \in Seqs(ElemOf(cc),
           \cup { [t |-> "array", c |-> [code |-> 80], x |-> Rep([t |-> "ubyte", x |-> <<7>>], n)] : n \in 251..254 }
           \cup { [t |-> "array", c |-> [code |-> 163], x |-> Rep(Sym(<<97, 98>>), n)] : n \in 49..52 }
 Described == { [t |-> "described", d |-> d, x |-> v] : d \in {UL(20), UL(70000), Sym(<<120,58,121>>)}, v \in Small \cup {L(<<>>), L(<<UI(1)>>)} }
+             \cup { [t |-> "described", d |-> Sym(Rep(120, n)), x |-> v] : n \in {255, 256}, v \in {Str(<<97>>), Str(<<>>), Sym(<<97>>), UI(1)} }
 Level1 == Scalars \cup Lists1 \cup Maps1 \cup Arrays \cup Described
-Nested2 == { L(<<a, b>>) : a \in Arrays \cup Described \cup {M(<<Sym(<<97>>), UI(1)>>), L(<<L(<<>>)>>)}, b \in {Str(<<97>>), Null} }
+\* (the second element is also a list: whatever state the array, described value or map before it left behind must not change how a list is written)
+Nested2 == { L(<<a, b>>) : a \in Arrays \cup Described \cup {M(<<Sym(<<97>>), UI(1)>>), L(<<L(<<>>)>>)}, b \in {Str(<<97>>), Null, L(<<UI(1), Str(<<97>>)>>)} }
 Nested3 == IF Deep THEN { M(<<Sym(<<107>>), a>>) : a \in Nested2 } \cup { [t |-> "described", d |-> UL(9), x |-> a] : a \in Nested2 } ELSE
            { M(<<Sym(<<107>>), L(<<[t |-> "array", c |-> [code |-> 163], x |-> <<Sym(<<97>>)>>], Null>>)>>),
              [t |-> "described", d |-> UL(9), x |-> L(<<[t |-> "described", d |-> Sym(<<120>>), x |-> L(<<UI(1)>>)], Str(<<97>>)>>)] }
